@@ -34,7 +34,7 @@ def run(tier, seed):
         # around the mean, where both tails matter
         for n in {max(0, int(mu) + d) for d in (-2, -1, 0, 1, 2)} | {max(0, int(mu + k * mu ** 0.5)) for k in (-3, 3)}:
             T.run('number_test_ndarray', {'fore_cnt': mu, 'obs_cnt': n}, key=('Pm', mu, n))
-    for _ in range(50 if quick else 2000):
+    for _ in range(50 if quick else 20000):
         mu = 10 ** rng.uniform(-6, 5)
         n = rng.choice([rng.randint(0, 20), max(0, int(rng.gauss(mu, 2 * mu ** 0.5 + 1))), rng.randint(0, 100000)])
         T.run('number_test_ndarray', {'fore_cnt': mu, 'obs_cnt': n}, key=('Pr', mu, n))
@@ -87,7 +87,7 @@ def run(tier, seed):
         for ms in itertools.combinations_with_replacement(range(0, 5), size):
             for n_obs in range(0, 6):
                 T.run('catalog_number_test', {'sizes': list(ms), 'n_obs': n_obs}, key=('cat', ms, n_obs))
-    for _ in range(10 if quick else 200):
+    for _ in range(10 if quick else 2000):
         sizes = [rng.choice([0, 1, 2, 3, 5, 8, 13, 40]) for _ in range(rng.randint(1, 30))]
         T.run('catalog_number_test', {'sizes': sizes, 'n_obs': rng.choice(sizes + [4, 100])}, key=('catr', tuple(sizes)))
     return T.result(bound='Poisson: counts 0..%d x %d means (exhaustive) + totals 1e-6..1e5 x counts 0..1e5 (directed/random); '
